@@ -1,5 +1,6 @@
 import ServlinVerif.Props.C20
 import ServlinVerif.Props.C05
+import ServlinVerif.Props.C20Disk
 open Servlin.C20
 #print axioms C20_status_named
 #print axioms C20_model_matches_code
@@ -9,3 +10,4 @@ open Servlin.C20
 #print axioms C20_oracle_accepts_model
 #print axioms Servlin.C05.C20_5xx_close
 #print axioms C20_other_errors
+#print axioms C20_disk_fault
